@@ -144,6 +144,7 @@ def run(tier):
     fl = c13.check_helpers(ck)
     c13.check_interr_impls(ck, fl, "cglue-lib", "cglue")
     c13.check_plumbing(ck, model.Model(cf), "corpus")
+    ck.floor("corpus methods with a stated transport", c13.check_transport(ck, model.Model(cf), "corpus", c13.corpus_transport_expect(corpus.expect(tier))), 300)
     c13.check_plumbing(ck, model.Model(ct, "cglue-test"), "cglue-tests")
     stats["result_payload_wrapped_inside_map"] = len(INNER_WRAPPED)
     ck.extra.update(stats)
